@@ -669,7 +669,7 @@ class TidemanAlternative:
             if len(ranked_set) == n_seats or not eligible_set:
                 return ranked_set
             else:
-                tier_votes = RANKED_SUBSETTER.convert(tier_votes)
+                tier_votes = RANKED_SUBSETTER.convert(tier_votes, eligible_set)
 
     def run_tier(self, votes: Dict[RankedVoteType, int]) -> Candidate:
         round_votes = votes
